@@ -6,7 +6,7 @@ CONSTANTS
   MinNow = 2
   MaxNow = 3
   MaxSaves = 2
-  MaxPlants = 1
+  MaxPlants = 0
   SS = 2
   HB = 1
   HdrAtomic = TRUE
